@@ -205,12 +205,12 @@ Print Assumptions C09_remove_nodes_extend.
 
 (* S2b: the stripped circuit's run IS the flop circuit's cycle-accurate run, read through the pin renaming ρ (<inst>.<pin> -> <inst>_<pin>),
    at every node of the flop circuit that survives the stripping; st / ins are pulled back along ρ.  Guards (Model/Unroll.v):
-   `flop_names_ok` (dot-free instance / pin names, unambiguous flattened names that are not node names, every pin-typed node is a
-   registered pin), `flop_wiring_ok` (only Q pins are read: bb_input pins have no fan-out, other output pins are unloaded), D and Q
+   `flop_names_ok` (dot-free instance / pin names, unambiguous flattened names that are not node names unless the pin is ignored,
+   every pin-typed node is a registered pin), `flop_wiring_ok` (only Q pins are read: bb_input pins have no fan-out, other output pins are unloaded), D and Q
    not ignored.  (The statement left open at hand-over lacked exactly these guards.) *)
 Theorem C09_stripped_is_flop_run : ∀ C d q ign ru CS sio st ins t n,
   seq_stripped C d q ign ru = Ok (CS, sio) → lint_clean C → closed (c_g C) → acyclic (c_g C) → closed (c_g CS) → acyclic (c_g CS) →
-  flop_names_ok C → flop_wiring_ok C q → d ∉ ign → q ∉ ign → (∀ kv, kv ∈ sio → kv.1 ∈ dom (c_g CS)) →
+  flop_names_ok C ign → flop_wiring_ok C q → d ∉ ign → q ∉ ign → (∀ kv, kv ∈ sio → kv.1 ∈ dom (c_g CS)) →
   let ρ := pin_rho (kept_pins (c_g C) ign) in
   n ∈ dom (c_g C) → ρ n ∈ dom (c_g CS) →
   flop_run C d q t (st ∘ ρ) (λ t, ins t ∘ ρ) n = run (c_g CS) sio t st ins (ρ n).
@@ -218,8 +218,9 @@ Proof. exact stripped_is_flop_run. Qed.
 Print Assumptions C09_stripped_is_flop_run.
 
 (* --- C09, sequential clause, about the model and the FLOP CIRCUIT ITSELF: inside the guards sequential_unroll RETURNS; its io map has the
-   D and Q pin of every flop under the flattened name, every primary output under its own name and no other pin (ignored or not; such
-   pins are not even nodes of the stripped circuit); every consistent valuation of the result carries
+   D and Q pin of every flop under the flattened name, every primary output under its own name and no other pin (a kept non-D/Q pin is not
+   even a node of the stripped circuit, and every node of the stripped circuit stems from a node that is not an ignored pin; a net that
+   merely carries the name <inst>_<ignored pin> stays, fix 48b5241); every consistent valuation of the result carries
    at io_map[ρ x][t] the value of node x of the flop circuit in cycle t of the cycle-accurate simulation `flop_run` (state = Q pins, next
    state = D pins) started from the values of the step-0 Q nodes, which are free inputs or the given constants (None / '0' / '1' / 'x' /
    per-flop dict); the flop data outputs are outputs exactly when add_flop_outputs, all other outputs are the per-step copies of the
@@ -228,13 +229,14 @@ Print Assumptions C09_stripped_is_flop_run.
    ignored, dict keys are instances and distinct. --- *)
 Theorem C09_sequential_unroll_full : ∀ C n d q ign afo iv ru prefix CS sio,
   seq_stripped C d q ign ru = Ok (CS, sio) →
-  lint_clean C → closed (c_g C) → acyclic (c_g C) → flop_names_ok C → flop_wiring_ok C q → d ∉ ign → q ∉ ign →
+  lint_clean C → closed (c_g C) → acyclic (c_g C) → flop_names_ok C ign → flop_wiring_ok C q → d ∉ ign → q ∉ ign →
   lint_clean CS → c_bbs CS = ∅ → closed (c_g CS) → acyclic (c_g CS) → plain (c_g CS) → valid_names (c_g CS) → free_are_inputs (c_g CS) →
   1 ≤ n → sio_ok (c_g CS) sio → unroll_names_ok (c_g CS) n sio prefix → iv_ok C iv → iv_addable iv → iv_nodup iv →
   let ρ := pin_rho (kept_pins (c_g C) ign) in
   ∃ U m, sequential_unroll C n d q ign afo iv ru prefix = Ok (U, m) ∧ dom m = io_of (c_g CS) ∧
     (∀ b, b ∈ dom (c_bbs C) → ρ (Api.pin b d) = pre b d ∧ ρ (Api.pin b q) = pre b q ∧ pre b d ∈ dom m ∧ pre b q ∈ dom m) ∧
-    (∀ b bb p, c_bbs C !! b = Some bb → p ∈ bb_pinset bb → p ≠ d → p ≠ q → pre b p ∉ dom (c_g CS) ∧ pre b p ∉ dom m) ∧
+    (∀ b bb p, c_bbs C !! b = Some bb → p ∈ bb_pinset bb → p ≠ d → p ≠ q → p ∉ ign → pre b p ∉ dom (c_g CS) ∧ pre b p ∉ dom m) ∧
+    (∀ k, k ∈ dom (c_g CS) → ∃ x, x ∈ dom (c_g C) ∧ x ∉ ignored_pins (c_g C) ign ∧ k = ρ x) ∧
     (∀ o, o ∈ outputs (c_g C) → o ∉ bb_pins (c_g C) → ρ o = o ∧ o ∈ outputs (c_g CS) ∧ o ∈ dom m) ∧
     (∀ w, consistent (c_g U) w →
       let st := λ v, w (io_name (ρ v) prefix 0) in
@@ -261,7 +263,7 @@ Definition ex_CS : Circuit * list (string * string) := match seq_stripped ex_F "
 Example C09_ex_seq_stripped : seq_stripped ex_F "d" "q" [] true = Ok ex_CS ∧ size (c_g ex_CS.1) = 5 ∧ ex_CS.2 = [("ff_d", "ff_q")].
 Proof. split; [|split]; apply (bool_decide_unpack _); vm_compute; reflexivity. Qed.
 Example C09_ex_seq_guards :
-  lint_clean ex_F ∧ closed ex_fg ∧ acyclic ex_fg ∧ flop_names_ok ex_F ∧ flop_wiring_ok ex_F "q" ∧
+  lint_clean ex_F ∧ closed ex_fg ∧ acyclic ex_fg ∧ flop_names_ok ex_F [] ∧ flop_wiring_ok ex_F "q" ∧
   lint_clean ex_CS.1 ∧ c_bbs ex_CS.1 = ∅ ∧ closed (c_g ex_CS.1) ∧ acyclic (c_g ex_CS.1) ∧ plain (c_g ex_CS.1) ∧ valid_names (c_g ex_CS.1) ∧
   free_are_inputs (c_g ex_CS.1) ∧ sio_ok (c_g ex_CS.1) ex_CS.2 ∧ unroll_names_ok (c_g ex_CS.1) 2 ex_CS.2 "cg_unroll".
 Proof.
@@ -291,6 +293,24 @@ Example C09_ex_seq_result :
   match sequential_unroll ex_F 2 "d" "q" [] true (IvAll C0) true "cg_unroll" with
   | Ok (U, m) => bool_decide (dom m = {[ "a"; "ff_d"; "ff_q"; "o" ]}) && bool_decide (ty (c_g U) "ff_q_cg_unroll_0" = Some C0) &&
                  bool_decide ("ff_d_cg_unroll_1" ∈ outputs (c_g U)) && bool_decide (size (c_g U) = 18)
+  | _ => false end = true.
+Proof. vm_compute. reflexivity. Qed.
+(* C09-F4: a gated clock net that carries the name ff_clk, the clk pin ignored: inside the guards (outside them when clk is not ignored),
+   and the net survives in what the model returns *)
+Definition ex_F4 := {| c_name := "f"; c_bbs := c_bbs ex_F; c_g :=
+  {[ "a" := mk_node Input false ∅ ]} ∪ {[ "en" := mk_node Input false ∅ ]} ∪ {[ "clk" := mk_node Input false ∅ ]} ∪
+  {[ "ff_clk" := mk_node And false {[ "clk"; "en" ]} ]} ∪ {[ "ff.clk" := mk_node BbIn false {[ "ff_clk" ]} ]} ∪
+  {[ "ff.d" := mk_node BbIn false {[ "o" ]} ]} ∪ {[ "ff.q" := mk_node BbOut false ∅ ]} ∪ {[ "qb" := mk_node Buf false {[ "ff.q" ]} ]} ∪
+  {[ "o" := mk_node Xor true {[ "a"; "qb" ]} ]} ∪ {[ "dbg" := mk_node Or true {[ "a"; "ff_clk" ]} ]} |}.
+Example C09_ex_F4 :
+  bool_decide (flop_names_ok ex_F4 ["clk"]) && negb (bool_decide (flop_names_ok ex_F4 [])) && bool_decide (flop_wiring_ok ex_F4 "q") &&
+  lint_cleanb ex_F4 && closedb (c_g ex_F4) && acyclicb (c_g ex_F4) &&
+  match seq_stripped ex_F4 "d" "q" ["clk"] true with
+  | Ok (CS, sio) => lint_cleanb CS && closedb (c_g CS) && acyclicb (c_g CS) && bool_decide (free_nodes (c_g CS) = inputs (c_g CS)) &&
+                    sio_okb (c_g CS) sio && unroll_names_okb (c_g CS) 2 sio "cg_unroll" && bool_decide ("ff_clk" ∈ dom (c_g CS))
+  | _ => false end &&
+  match sequential_unroll ex_F4 2 "d" "q" ["clk"] false IvNone true "cg_unroll" with
+  | Ok (U, m) => bool_decide (fanin (c_g U) "unrolled_0_dbg" = {[ "unrolled_0_a"; "unrolled_0_ff_clk" ]})
   | _ => false end = true.
 Proof. vm_compute. reflexivity. Qed.
 (* the flop circuit really runs: q0 = 0, a = 1 in both cycles: o = 1, then (q = 1) o = 0 *)
